@@ -37,6 +37,11 @@ def run(ctx, out):
     beh1 = rc.behaviours(ctx, out, 40 if ctx.quick else 400, 100, cfg="RaceDriver.sim.q1.cfg", seed_off=8)
     for i, (scn, script) in enumerate(beh1):
         jobs.append({"scn": scn, "script": script, "seed": ctx.seed + 500 + i, "test_mode": False, "qmax": 1})
+    # generated scenario family (schedules drawn by the harness, see racecommon.gen_scenarios)
+    gbeh, ngen = rc.behaviours_gen(ctx, out, 30 if ctx.quick else 400, 30 if ctx.quick else 400, 100, seed_off=9)
+    for i, (scn, script) in enumerate(gbeh):
+        jobs.append({"scn": scn, "script": script, "seed": ctx.seed + 7000 + i, "test_mode": i % 2 == 0, "qmax": [100, 100, 2][i % 3]})
+    out.extra["generated_scenarios"] = ngen
     scns = []
     seen = set()
     for scn, _ in beh + beh1:
